@@ -25,6 +25,10 @@ open PsModel.C16 (aget aset adel)
 
 abbrev Svc := String                      -- "domain.service"
 
+/-- `str.lower()` as far as ASCII letters go – what `homeassistant.core.ServiceRegistry` does to domain and service in
+`async_register` / `async_remove` / `has_service` / `async_call` -/
+def lower (s : String) : String := String.ofList (s.toList.map Char.toLower)
+
 inductive Resp | none | optional | only
 deriving DecidableEq, Repr
 
@@ -44,7 +48,8 @@ deriving DecidableEq, Repr
 structure Reg where
   cnt : List (Svc × Nat) := []            -- Function.service_cnt
   owner : List (Svc × OwnerName) := []    -- Function.service2global_ctx
-  handler : List (Svc × Handler) := []    -- hass.services (pyscript's entries)
+  handler : List (Svc × Handler) := []    -- hass.services (pyscript's entries) as pyscript's key sees them
+  ha : List (Svc × Handler) := []         -- hass.services itself: keyed by the LOWER-CASED name
   underflow : Bool := false               -- a `remove` was reached with count 0
 deriving Repr
 
@@ -68,13 +73,13 @@ def accepts (r : Reg) (o : OwnerName) (k : Svc) : Bool :=
 def register (r : Reg) (o : OwnerName) (k : Svc) (h : Handler) : Reg × Bool :=
   if accepts r o k then
     ({ r with cnt := aset k (cntOf r k + 1) (ensureCnt r.cnt k), owner := ensureOwner r.owner k o,
-              handler := aset k h r.handler }, true)
+              handler := aset k h r.handler, ha := aset (lower k) h r.ha }, true)
   else ({ r with cnt := ensureCnt r.cnt k }, false)
 
 /-- `Function.service_remove(global_ctx_name, domain, service)` – the context argument is not used -/
 def remove (r : Reg) (k : Svc) : Reg :=
   if cntOf r k > 1 then { r with cnt := aset k (cntOf r k - 1) r.cnt }
-  else { cnt := aset k 0 r.cnt, owner := adel k r.owner, handler := adel k r.handler,
+  else { cnt := aset k 0 r.cnt, owner := adel k r.owner, handler := adel k r.handler, ha := adel (lower k) r.ha,
          underflow := r.underflow || (cntOf r k == 0) }
 
 /-- `for name in names: service_remove(name)` -/
@@ -97,16 +102,29 @@ structure Cfg where
                           -- (new, since the repair of `on_func_var_deleted`); before, it stayed scheduled
   orderedStart : Bool     -- `GlobalContext.start()` creates the start tasks in definition order (`dms_order`, new since
                           -- the repair); before, in the iteration order of the set `dms_delay_start`
+  foldCase : Bool         -- `service_register` / `service_remove` build their key from the lower-cased name (both
+                          -- subsystems, since the repair): names that differ only in case share count and owner, as
+                          -- they share the Home Assistant service.  Before: `key = f"{domain}.{service}"` as written.
 deriving DecidableEq, Repr
 
 /-- the two subsystems as the source has them now: the repair switches are read off the source by the extractor -/
-def legacyCfg : Cfg := ⟨true, false, false, false, false, PsModel.Gen.LEGACY_SKIPS_DUPLICATE, false, false⟩
+def legacyCfg : Cfg :=
+  ⟨true, false, false, false, false, PsModel.Gen.LEGACY_SKIPS_DUPLICATE, false, false, PsModel.Gen.SERVICE_KEY_LOWERCASED⟩
 def newCfg : Cfg :=
   ⟨false, PsModel.Gen.SERVICE_OWNER_IS_EVALUATOR, true, true, true, false,
-   PsModel.Gen.DELETED_BEFORE_START_DISCARDED, PsModel.Gen.START_IN_DEFINITION_ORDER⟩
-/-- … and as they were before the `fix:` commits (findings C12-F2, C12-F3, C12-F4, C12-F5) -/
-def legacyPreFix : Cfg := ⟨true, false, false, false, false, false, false, false⟩
-def newPreFix : Cfg := ⟨false, true, true, true, true, false, false, false⟩
+   PsModel.Gen.DELETED_BEFORE_START_DISCARDED, PsModel.Gen.START_IN_DEFINITION_ORDER, PsModel.Gen.SERVICE_KEY_LOWERCASED⟩
+/-- … and as they were before the `fix:` commits (findings C12-F2, C12-F3, C12-F4, C12-F5, C12-F9) -/
+def legacyPreFix : Cfg := ⟨true, false, false, false, false, false, false, false, false⟩
+def newPreFix : Cfg := ⟨false, true, true, true, true, false, false, false, false⟩
+/-- today's code with only the key of the count table as it was before the repair of C12-F9 -/
+def caseSensitive (c : Cfg) : Cfg := { c with foldCase := false }
+
+/-- the key `service_register` / `service_remove` compute for a name as written in `@service(...)`.  A holder of the
+model remembers its names as these keys (the code remembers them as written and computes the key at every call: the
+same thing, except that a legacy function naming one service twice with different case is counted twice by the code –
+and gives both back – where the model counts it once). -/
+def keyOf (cfg : Cfg) (k : Svc) : Svc := if cfg.foldCase then lower k else k
+def foldDecl (cfg : Cfg) (decl : List (Svc × Resp)) : List (Svc × Resp) := decl.map (fun d => (keyOf cfg d.1, d.2))
 
 inductive Status | delayed | running
 deriving DecidableEq, Repr
@@ -256,7 +274,7 @@ def unloadReg (ctx : String) : Reg → List Holder → Reg
     if h.ctx == ctx then unloadReg ctx (releaseList r h.tracked) hs else unloadReg ctx r hs
 
 def step (cfg : Cfg) (st : MState) : Op → MState
-  | .define ctx fn var gen decl => defineStep cfg st ctx fn var gen decl
+  | .define ctx fn var gen decl => defineStep cfg st ctx fn var gen (foldDecl cfg decl)
   | .start ctx events =>
     if cfg.delayTopLevel then
       { startDone ctx (startEvents cfg ctx st events) with
